@@ -141,6 +141,12 @@ def protocol_frame():
     return make_protocol([(d, {"k_in": v}) for d, v in PROTOCOL])
 
 
+def y0_of(sc: dict) -> dict | None:
+    """The y0= argument of the configuration ({x: v} or None): base initial values the rows are applied on top of."""
+    v = sc["cfg"].get("y0", 0)
+    return {"x": float(v)} if v and v > 0 else None
+
+
 def apply_row(model, vals: dict) -> None:
     """Public API, by membership: variables get initial values, the rest are parameters."""
     variables = set(model.get_variable_names())
@@ -223,6 +229,8 @@ def run_scan(sc: dict, log: str):
     model = build_model(cfg["variant"])
     tab = table(sc)
     kw: dict = {"worker": worker}
+    if y0_of(sc) is not None:
+        kw["y0"] = dict(y0_of(sc))
     if kind.startswith("mc."):
         kw["mc_to_scan"] = tab
         kw["max_workers"] = w
@@ -263,6 +271,8 @@ def independent(sc: dict, i: int, inner: float | None = None) -> dict:
     kind = sc["cfg"]["kind"]
     vals = row_values(sc, i) if i else {}
     m = copy.deepcopy(build_model(sc["cfg"]["variant"]))
+    if y0_of(sc) is not None:       # row values take precedence over y0, y0 over the model's own initial values
+        m.update_variables(dict(y0_of(sc)))
     apply_row(m, vals)
     if inner is not None:
         m.update_parameters({"k_in": inner})
@@ -291,7 +301,7 @@ def independent(sc: dict, i: int, inner: float | None = None) -> dict:
 def closed_form(sc: dict, i: int, times: list[float], inner: float | None = None) -> dict:
     """x(t), v_in, v_out of row i from x' = kineff - k*x (piecewise for protocols); steady kinds: times = [inf]."""
     cfg = sc["cfg"]
-    vals = {**ORIGINAL, **row_values(sc, i)}
+    vals = {**ORIGINAL, **(y0_of(sc) or {}), **row_values(sc, i)}
     if inner is not None:
         vals["k_in"] = inner
     k, x0, variant, q = vals["k"], vals["x"], cfg["variant"], vals.get("q")
